@@ -329,12 +329,75 @@ func runC06(c *Ctx) {
 			return true
 		})
 	}
-	// parseGo: slice, advance and positions all use the extractor's start/end
-	if fd := findFunc(p, "", "parseGo"); fd != nil {
-		t := strings.ReplaceAll(nodeText(c.fset, fd.Body), " ", "")
-		good := strings.Contains(t, "src[start:end]") && strings.Contains(t, "pi.Take(end)") && strings.Contains(t, "pi.PositionAt(from+start)") && strings.Contains(t, "pi.PositionAt(from+end)")
-		c.check(good, "C06.R3", funcKey(p, fd)+"|consistent-start-end", c.pos(fd.Pos()), "text, advance and range all use the extractor's start/end relative to the same index",
-			"parseGo no longer slices src[start:end], advances by end and converts from+start / from+end with PositionAt: text and range of the expression drift apart")
+	// the generic Go-expression parser: the function that calls an extractor-typed parameter — text, advance and range
+	// must all use the extractor's own (start, end), relative to the index taken before
+	for _, fd := range allFuncDecls(p) {
+		var exCall *ast.CallExpr
+		ast.Inspect(fd.Body, func(x ast.Node) bool {
+			if call, ok := x.(*ast.CallExpr); ok {
+				if id, ok := call.Fun.(*ast.Ident); ok {
+					if v, ok := info.ObjectOf(id).(*types.Var); ok {
+						if sig, ok := v.Type().Underlying().(*types.Signature); ok && sig.Results().Len() == 3 && sig.Params().Len() == 1 {
+							exCall = call
+						}
+					}
+				}
+			}
+			return true
+		})
+		if exCall == nil {
+			continue
+		}
+		var startOb, endOb, fromOb types.Object
+		ast.Inspect(fd.Body, func(x ast.Node) bool {
+			if as, ok := x.(*ast.AssignStmt); ok && len(as.Rhs) == 1 {
+				if as.Rhs[0] == ast.Expr(exCall) && len(as.Lhs) == 3 {
+					if a, ok := as.Lhs[0].(*ast.Ident); ok {
+						startOb = info.ObjectOf(a)
+					}
+					if b, ok := as.Lhs[1].(*ast.Ident); ok {
+						endOb = info.ObjectOf(b)
+					}
+				}
+				if call, ok := as.Rhs[0].(*ast.CallExpr); ok && strings.HasSuffix(types.ExprString(call.Fun), ".Index") && len(as.Lhs) == 1 && as.Pos() < exCall.Pos() {
+					if f, ok := as.Lhs[0].(*ast.Ident); ok {
+						fromOb = info.ObjectOf(f)
+					}
+				}
+			}
+			return true
+		})
+		isOb := func(e ast.Expr, ob types.Object) bool {
+			id, ok := ast.Unparen(e).(*ast.Ident)
+			return ok && ob != nil && info.ObjectOf(id) == ob
+		}
+		isSum := func(e ast.Expr, a, b types.Object) bool {
+			be, ok := ast.Unparen(e).(*ast.BinaryExpr)
+			return ok && be.Op == token.ADD && ((isOb(be.X, a) && isOb(be.Y, b)) || (isOb(be.X, b) && isOb(be.Y, a)))
+		}
+		sliceOK, takeOK, posOK := false, false, false
+		ast.Inspect(fd.Body, func(x ast.Node) bool {
+			switch y := x.(type) {
+			case *ast.SliceExpr:
+				if isOb(y.Low, startOb) && isOb(y.High, endOb) && len(exCall.Args) == 1 && types.ExprString(y.X) == types.ExprString(exCall.Args[0]) {
+					sliceOK = true
+				}
+			case *ast.CallExpr:
+				if strings.HasSuffix(types.ExprString(y.Fun), ".Take") && len(y.Args) == 1 && isOb(y.Args[0], endOb) {
+					takeOK = true
+				}
+				if fn := calleeOf(info, y); fn != nil && fn.Name() == "NewExpression" && len(y.Args) == 3 {
+					a1, ok1 := y.Args[1].(*ast.CallExpr)
+					a2, ok2 := y.Args[2].(*ast.CallExpr)
+					if ok1 && ok2 && len(a1.Args) == 1 && len(a2.Args) == 1 && strings.HasSuffix(types.ExprString(a1.Fun), ".PositionAt") && strings.HasSuffix(types.ExprString(a2.Fun), ".PositionAt") {
+						posOK = isSum(a1.Args[0], fromOb, startOb) && isSum(a2.Args[0], fromOb, endOb)
+					}
+				}
+			}
+			return true
+		})
+		c.check(sliceOK && takeOK && posOK, "C06.R3", funcKey(p, fd)+"|consistent-start-end", c.pos(fd.Pos()), "text = src[start:end], advance = end, range = PositionAt(index+start) … PositionAt(index+end)",
+			fmt.Sprintf("%s: the expression text, the amount of input consumed and the recorded range no longer all use the extractor's (start, end) relative to the index taken before the call (slice %v, advance %v, positions %v): text and range of the expression drift apart", fd.Name.Name, sliceOK, takeOK, posOK))
 	}
 	c.floor("C06.R3", 3)
 }
